@@ -18,7 +18,10 @@
       planes    30 signd all > 0 | 31 all < 0 | 32 mixed
       tetra     40+i face i examined (followed by the triangle's trace) | 44+i face i skipped
                 51..53 face i better | 55..57 face i not better
-      top       60 success | 61 v_len_sq >= prev_v_len_sqr  
+      top       60 success | 61 v_len_sq >= prev_v_len_sqr
+      70 / 71   (instrumentation only) the two squared distances compared next in the degenerate
+                triangle arm / between tetrahedron faces are within 2^-40 relative: the outcome
+                of that comparison depends on how np.dot rounds
     Literals:
     - [EPSILON = np.finfo(float).eps] = 2^-52 exactly;
     - [EPSILON_SQR = EPSILON * EPSILON] (a product in the source, a product here;
@@ -46,6 +49,14 @@ Section Simplex.
   Definition scalar_triple_product (a b c : V3 F) : F := dot a (cross b c).
 
   Definition trace := list N.
+
+  (** instrumentation only (never influences a result): near tie of two squared distances *)
+  Definition NEAR : F := cst (1 # 1099511627776).                 (* 2^-40 *)
+  Definition near_tie (c : N) (a b : F) : trace :=
+    if abs (a - b) <=? NEAR * fmax (abs a) (abs b) then [c] else [].
+  (** the same, skipped while [best] still is the sentinel MAX_FLOAT *)
+  Definition near_tie_set (c : N) (a best : F) : trace :=
+    if best <? MAX_FLOAT then near_tie c a best else [].
 
   (** lines 291-312 *)
   Definition get_barycentric_coordinates_line_t (a b : V3 F) : F * F * trace :=
@@ -140,14 +151,15 @@ Section Simplex.
       let dist_sq := dot q q in
       let '(closest_point, best_dist_sq, closest_set, t3) :=
         if dist_sq <? best_dist_sq then
-          (q, dist_sq, (N.land new_set 1 + N.shiftl (N.land new_set 2) 1)%N, [11%N])
-        else (closest_point, best_dist_sq, closest_set, [12%N]) in
+          (q, dist_sq, (N.land new_set 1 + N.shiftl (N.land new_set 2) 1)%N,
+           near_tie 70 dist_sq best_dist_sq ++ [11%N])
+        else (closest_point, best_dist_sq, closest_set, near_tie 70 dist_sq best_dist_sq ++ [12%N]) in
       (* Edge BC *)
       let '(q, new_set, t4) := closest_point_line_t b c in
       let dist_sq := dot q q in
       let '(closest_point, closest_set, t5) :=
-        if dist_sq <? best_dist_sq then (q, N.shiftl new_set 1, [13%N])
-        else (closest_point, closest_set, [14%N]) in
+        if dist_sq <? best_dist_sq then (q, N.shiftl new_set 1, near_tie 70 dist_sq best_dist_sq ++ [13%N])
+        else (closest_point, closest_set, near_tie 70 dist_sq best_dist_sq ++ [14%N]) in
       (closest_point, closest_set, t0 ++ [10%N] ++ t1 ++ t2 ++ t3 ++ t4 ++ t5)
     else
     (* Check if P in vertex region outside A *)
@@ -237,8 +249,8 @@ Section Simplex.
         let '(q, new_set, tr) := closest_point_triangle_t a c d in
         let dist_sq := dot q q in
         if dist_sq <? best_dist_sq then
-          (q, (N.land new_set 1 + N.shiftl (N.land new_set 6) 1)%N, dist_sq, [41%N] ++ tr ++ [51%N])
-        else (closest_point, closest_set, best_dist_sq, [41%N] ++ tr ++ [55%N])
+          (q, (N.land new_set 1 + N.shiftl (N.land new_set 6) 1)%N, dist_sq, [41%N] ++ tr ++ near_tie_set 71 dist_sq best_dist_sq ++ [51%N])
+        else (closest_point, closest_set, best_dist_sq, [41%N] ++ tr ++ near_tie_set 71 dist_sq best_dist_sq ++ [55%N])
       else (closest_point, closest_set, best_dist_sq, [45%N]) in
     (* face adb *)
     let '(closest_point, closest_set, best_dist_sq, t2) :=
@@ -247,8 +259,8 @@ Section Simplex.
         let dist_sq := dot q q in
         if dist_sq <? best_dist_sq then
           (q, (N.land new_set 1 + N.shiftl (N.land new_set 2) 2 + N.shiftr (N.land new_set 4) 1)%N,
-           dist_sq, [42%N] ++ tr ++ [52%N])
-        else (closest_point, closest_set, best_dist_sq, [42%N] ++ tr ++ [56%N])
+           dist_sq, [42%N] ++ tr ++ near_tie_set 71 dist_sq best_dist_sq ++ [52%N])
+        else (closest_point, closest_set, best_dist_sq, [42%N] ++ tr ++ near_tie_set 71 dist_sq best_dist_sq ++ [56%N])
       else (closest_point, closest_set, best_dist_sq, [46%N]) in
     (* face bdc *)
     let '(closest_point, closest_set, t3) :=
@@ -257,8 +269,8 @@ Section Simplex.
         let dist_sq := dot q q in
         if dist_sq <? best_dist_sq then
           (q, (N.shiftl (N.land new_set 1) 1 + N.shiftl (N.land new_set 2) 2 + N.land new_set 4)%N,
-           [43%N] ++ tr ++ [53%N])
-        else (closest_point, closest_set, [43%N] ++ tr ++ [57%N])
+           [43%N] ++ tr ++ near_tie_set 71 dist_sq best_dist_sq ++ [53%N])
+        else (closest_point, closest_set, [43%N] ++ tr ++ near_tie_set 71 dist_sq best_dist_sq ++ [57%N])
       else (closest_point, closest_set, [47%N]) in
     (closest_point, closest_set, tp ++ t0 ++ t1 ++ t2 ++ t3).
   Definition closest_point_tetrahedron (a b c d : V3 F) : V3 F * N :=
